@@ -6,7 +6,8 @@ PROP = dict(
     required_theorems=["C22_subst_update", "C22_subst_update_body", "C22_impl_ty_extract", "C22_impl_selected",
                        "C22_impl_selected_unique", "C22_dispatch", "C22_method_by_name", "C22_label_injective",
                        "C22_label_stable", "C22_label_per_instantiation", "C22_operator_method",
-                       "C22_num_operators_distinct", "C22_label_qualified", "C22_unqualified_label_clash"],
+                       "C22_num_operators_distinct", "C22_label_qualified", "C22_unqualified_label_clash",
+                       "C22_method_value_eq_call", "C22_method_value_by_name"],
     harness_bin="c22",
     mismatch_is_violation=True,
     rule="(quick) 160 / (thorough) 3000 seeded programs: a two-method user interface implemented for a seeded subset (3-12) of "
@@ -22,7 +23,11 @@ PROP = dict(
          "the prelude implementation must run), every sixth Num (+ - * / on the user type), every fourth Index and "
          "Iterable/Iterator on a user container incl. `bag[i] op= v`; the Num programs use every operator (+ - * / ^) directly, "
          "in generic functions and as compound assignment on a variable, a struct field and an array element, and each operator "
-         "case is also compared with the model's operator table (`monoop`); 21 fixed probes; 12 (quick) / 200 (thorough) three-module programs in which two modules declare types with the same "
+         "case is also compared with the model's operator table (`monoop`); 21 fixed probes; 4-6 times per program an interface method is used as a first-class VALUE (bound by let, passed to a "
+         "higher-order function, element of an array, component of a tuple, and the same inside generic functions) at 2-3 "
+         "implementations with seeded method order, the prelude methods ToString.str / Equal.equal / Ord.* / Clone.clone / "
+         "Num.* as values at the user type whose Ord implementation lists its methods in another order, and method values at "
+         "same-named types of two modules (`monov` requests: a method value dispatches like a call, by name); 12 (quick) / 200 (thorough) three-module programs in which two modules declare types with the same "
          "unqualified names (a struct `Item` and an enum `Kind`, different layouts, own Tg / ToString / Equal / Ord "
          "implementations, `use inv except (Item, Kind)` + `use inv as iv`) and the same generic functions (plain and with a "
          "capturing closure) and interface methods are instantiated at both in seeded order; per generic function the pair is "
